@@ -35,7 +35,11 @@ def _bind_elem(eng, st, g, coll):
         eng.assign(g.target, Val(ty.elem, k), sub)
         return sub, [k], coll.t[k], Val(ty.elem, k), ("set", coll, k)
     if isinstance(ty, TList):
-        i = z3.Int(fresh_name("ci"))
+        # fixed bound-variable name: a plain map over a list yields a term that spec-level macros
+        # (theory.map_union) reproduce syntactically; nested list comprehensions would capture it
+        if getattr(eng, "_in_list_comp", False):
+            raise OutOfSubset("nested comprehension over lists")
+        i = z3.Int("ci!")
         elem = Val(ty.elem, ty.at(coll.t)[i])
         eng.assign(g.target, elem, sub)
         return sub, [i], z3.And(0 <= i, i < ty.len(coll.t)), elem, ("list", coll, i)
